@@ -390,6 +390,14 @@ def keysLoop (O : Oracle) : List Id → List Id → M (List Id)
   | [], g => pure g
   | k :: ks, g => if g.contains k then rej else if !O.checkKey k then rej else keysLoop O ks (g ++ [k])
 
+/-- the per-type shape test of `validateOutputs` (kernel multisig outputs carry no keys, script
+    or mask; every other output needs a well-formed script, a valid mask and no withdrawal) -/
+def outputShapeBad (O : Oracle) (o : Output) : Bool :=
+  if isKernelMultisigOutput o.type then
+    o.keys.length != 0 || o.script.length != 0 || o.mask != 0
+  else
+    !scriptFormatOk o.script || o.mask == 0 || !O.checkKey o.mask || o.withdrawal
+
 /-- the output loop of `validateOutputs`: returns the output sum and the ghost keys -/
 def outputsLoop (O : Oracle) : List Output → Nat → List Id → M (Nat × List Id)
   | [], sum, ghosts => pure (sum, ghosts)
@@ -397,10 +405,7 @@ def outputsLoop (O : Oracle) : List Output → Nat → List Id → M (Nat × Lis
     guardRej (o.keys.length > sliceCountLimit)
     guardRej (o.amount == 0)
     let ghosts ← keysLoop O o.keys ghosts
-    if isKernelMultisigOutput o.type then
-      guardRej (o.keys.length != 0 || o.script.length != 0 || o.mask != 0)
-    else
-      guardRej (!scriptFormatOk o.script || o.mask == 0 || !O.checkKey o.mask || o.withdrawal)
+    guardRej (outputShapeBad O o)
     match Amount.add sum o.amount with
     | none => rej   -- unreachable: the amount was checked positive (kept total)
     | some s => outputsLoop O os s ghosts
